@@ -339,9 +339,24 @@ func ppPoolInvariant(t string) map[string]engine.AbsVal {
 
 // AFmt performs the run.
 func (c *Ctx) AFmt() *AFmt {
-	if c.afmt != nil {
-		return c.afmt
+	if c.afmt == nil {
+		c.afmt = c.runFmt(false)
 	}
+	return c.afmt
+}
+
+// AWrap is run A-wrap: the same entry points plus the %w roots, tracking
+// only the capture slot (wrapErrs, wrappedErr) and the two guard flags. It
+// is separate from A-fmt because the capture slot is independent of the
+// classification state and would only multiply A-fmt's configurations.
+func (c *Ctx) AWrap() *AFmt {
+	if c.awrap == nil {
+		c.awrap = c.runFmt(true)
+	}
+	return c.awrap
+}
+
+func (c *Ctx) runFmt(wrap bool) *AFmt {
 	a := &AFmt{writers: map[*ssa.Function]bool{}, layer: map[*ssa.Function]bool{}}
 	hooks := &fmtHooks{a: a, c: c}
 	// writer layer and which of its functions reach Buffer.Write*
@@ -382,18 +397,33 @@ func (c *Ctx) AFmt() *AFmt {
 			a.writers[fn] = true
 		}
 	}
-	cfg := engine.Config{
-		Prog:     c.P.Prog,
-		InModule: c.P.InModule,
-		Track: map[engine.TrackSpec]bool{
-			{Type: tBuffer, Field: "mode"}: true,
-			{Type: tPP, Field: "override"}: true, {Type: tPP, Field: "panicking"}: true, {Type: tPP, Field: "erroring"}: true,
+	track := map[engine.TrackSpec]bool{
+		{Type: tBuffer, Field: "mode"}: true,
+		{Type: tPP, Field: "override"}: true, {Type: tPP, Field: "panicking"}: true, {Type: tPP, Field: "erroring"}: true,
+		{Type: tFmt, Field: "buf"}: true,
+	}
+	ghosts := map[string]map[string]engine.AbsVal{tBuffer: {"#ctx": str("none"), "#lent": str("F")}}
+	poolInv := ppPoolInvariant
+	if wrap {
+		track = map[engine.TrackSpec]bool{
 			{Type: tPP, Field: "wrapErrs"}: true, {Type: tPP, Field: "wrappedErr"}: true,
-			{Type: tFmt, Field: "buf"}: true,
-		},
+			{Type: tPP, Field: "panicking"}: true, {Type: tPP, Field: "erroring"}: true,
+		}
+		ghosts = nil
+		poolInv = func(t string) map[string]engine.AbsVal {
+			if t != tPP {
+				return nil
+			}
+			return map[string]engine.AbsVal{"wrappedErr": engine.NilV{}}
+		}
+	}
+	cfg := engine.Config{
+		Prog:          c.P.Prog,
+		InModule:      c.P.InModule,
+		Track:         track,
 		SliceIdent:    map[engine.TrackSpec]bool{{Type: tBuffer, Field: "buf"}: true},
-		Ghosts:        map[string]map[string]engine.AbsVal{tBuffer: {"#ctx": str("none"), "#lent": str("F")}},
-		PoolInvariant: ppPoolInvariant,
+		Ghosts:        ghosts,
+		PoolInvariant: poolInv,
 		NoPanicPkgs:   map[string]bool{pkgBuffer: true, pkgRfmt + "/fmtsort": true},
 		Hooks:         hooks,
 	}
@@ -449,7 +479,11 @@ func (c *Ctx) AFmt() *AFmt {
 	// %w roots (C15): every function that receives the verb from printArg
 	// or doPrintf, entered with verb 'w' / any other verb and every state
 	// of the capture pair.
-	for _, vt := range c.verbTakers() {
+	var takers []verbTaker
+	if wrap {
+		takers = c.verbTakers()
+	}
+	for _, vt := range takers {
 		for _, verb := range []string{"w", "other"} {
 			for _, we := range []bool{true, false} {
 				for _, wd := range []bool{false, true} {
@@ -458,9 +492,7 @@ func (c *Ctx) AFmt() *AFmt {
 					}
 					ppT := c.P.SSAPkg("internal/rfmt").Type("pp").Type()
 					fields := map[string]engine.AbsVal{
-						"override": num(0), "buf.Buffer.mode": num(1), "buf.Buffer.#ctx": str("none"), "buf.Buffer.#lent": str("F"),
 						"panicking": boolv(false), "erroring": boolv(false), "wrapErrs": boolv(we),
-						"fmt.buf": engine.Ptr{Obj: "in0", Path: "buf"},
 					}
 					if wd {
 						fields["wrappedErr"] = engine.NonNil{}
@@ -489,7 +521,6 @@ func (c *Ctx) AFmt() *AFmt {
 	for i := range a.Roots {
 		a.Roots[i].Sum = a.It.SummaryFor(roots[i].Fn, roots[i].Args, roots[i].Heap, false)
 	}
-	c.afmt = a
 	return a
 }
 
